@@ -278,7 +278,7 @@ class CallsMixin:
         if missing:
             raise Unsupported('callee %s writes %s but its contract has no matching assigns clause (frame not declared)' % (key, ', '.join(missing)))
 
-    def apply_contract(self, st, c, key, recv, argv, e, assumed, havoc_oids=()):
+    def apply_contract(self, st, c, key, recv, argv, e, assumed, havoc_oids=(), havoc_ghosts=()):
         line = e.get('line')
         if assumed:
             self.assumed.add(key)
@@ -311,8 +311,9 @@ class CallsMixin:
             rnames = rn[0].text.replace(',', ' ').split() if rn else (['result'] if len(rtypes) == 1 else ['result%d' % i for i in range(len(rtypes))])
         old = st.clone()
         env_pre = SpecEnv(st, binds, old)
-        for cl in c.get('requires'):
-            self.oblige(st, 'pre@call %s@%s' % (key.split('/')[-1], line), self.sev_bool(env_pre, cl.expr), src=line)
+        for ci, cl in enumerate(c.get('requires')):
+            # (one obligation per requires clause: with one shared name the de-duplication of obligations kept only the first)
+            self.oblige(st, 'pre%s@call %s@%s' % ('' if ci == 0 else '#%d' % (ci + 1), key.split('/')[-1], line), self.sev_bool(env_pre, cl.expr), src=line)
         pcs = [self.sev_bool(env_pre, cl.expr) for cl in c.get('panics_if')]
         if pcs:
             pc = z3.Or(pcs) if len(pcs) > 1 else pcs[0]
@@ -325,6 +326,9 @@ class CallsMixin:
                 st.assume(z3.Or(pos) if len(pos) > 1 else pos[0])
                 raise PanicEx('callee %s may panic' % key)
         self.bump_top(st)             # the callee may allocate
+        for g in havoc_ghosts:        # ghost heaps written by the `after` clauses of a literal called through its contract
+            self.ghost_read(st, g, z3.IntVal(0))
+            st.ghost[('gheap', g)] = fresh('hvG_' + g, st.ghost[('gheap', g)].sort())
         # a function literal handed to the callee may be run by it any number of times: the variables of the caller that
         # the literal's body assigns are unknown afterwards
         lit_oids = set()
@@ -770,11 +774,12 @@ class CallsMixin:
                     saved = self.frame.contract
                     try:
                         # ghost heaps written by the literal's `after` clauses
+                        # (havocked inside apply_contract, after the literal's preconditions were checked in the state of
+                        # the call: they may speak about the ghost heap)
+                        gh = []
                         for cl2 in lc.get('after'):
-                            for g in re.findall(r'\bghost\s+(\w+)\s*\(', cl2.text):
-                                self.ghost_read(st, g, z3.IntVal(0))
-                                st.ghost[('gheap', g)] = fresh('hvG_' + g, st.ghost[('gheap', g)].sort())
-                        return self.apply_contract(st, lc, lk, None, argv, e, assumed=False, havoc_oids=sorted(vs & cap))
+                            gh += re.findall(r'\bghost\s+(\w+)\s*\(', cl2.text)
+                        return self.apply_contract(st, lc, lk, None, argv, e, assumed=False, havoc_oids=sorted(vs & cap), havoc_ghosts=gh)
                     finally:
                         self.frame.contract = saved
             for cl in self.frame.contract.get('oncall'):
